@@ -64,9 +64,33 @@ func c06(c *Ctx) {
 				}
 			}
 		}
+		// state markers inside rules (erased from the tables' RuleLen, but present in Rule.RHS)
+		type mark struct{ rule, pos, marker int }
+		var marks []mark
+		if c.Rng.Intn(2) == 0 {
+			for k := 0; k < 1+c.Rng.Intn(3); k++ {
+				ri := c.Rng.Intn(len(g.Rules))
+				marks = append(marks, mark{ri, c.Rng.Intn(len(g.Rules[ri].RHS) + 1), c.Rng.Intn(2)})
+			}
+			c.Count("with state markers")
+		}
 		mk := func() *lalr.Grammar {
 			lg := g.Lalr()
 			lg.ExpectSR, lg.ExpectRR = -1, -1
+			if len(marks) > 0 {
+				lg.Markers = []string{"m0", "m1"}
+				for _, m := range marks {
+					rhs := lg.Rules[m.rule].RHS
+					pos := m.pos
+					if pos > len(rhs) {
+						pos = len(rhs)
+					}
+					nr := append([]lalr.Sym(nil), rhs[:pos]...)
+					nr = append(nr, lalr.Marker(m.marker))
+					nr = append(nr, rhs[pos:]...)
+					lg.Rules[m.rule].RHS = nr
+				}
+			}
 			return lg
 		}
 		lg := mk()
